@@ -226,17 +226,21 @@ func ScheduleUnmanageHAProxyEndpoints(haproxyEndpointsToRemove []*HAProxyEndpoin
 	if len(haproxyEndpointsToRemove) == 0 {
 		return
 	}
+	verifhook.Point("haproxy.unmanage.scheduled")
 	go func() {
 		clock.Sleep(staleVersionTTL)
 		unmanageHAProxyEndpointsVoided(haproxyEndpointsToRemove)
+		verifhook.Point("haproxy.unmanage.done")
 	}()
 }
 
 func scheduleUnmanageHAProxyGlobal() {
 	clock := contextmanager.Get().GetClock()
+	verifhook.Point("haproxy.unmanage.scheduled")
 	go func() {
 		clock.Sleep(staleVersionTTL)
 		unmanageGlobalVoided()
+		verifhook.Point("haproxy.unmanage.done")
 	}()
 }
 
